@@ -211,10 +211,7 @@ func init() {
 			}
 			done := map[*ssa.BasicBlock]bool{}
 			for _, s := range sites {
-				h := loopHeaderOf(s.Block())
-				for h != nil && !loopBody(h)[s.Block()] {
-					h = nil
-				}
+				h := enclosingLoop(s.Block())
 				if h == nil {
 					r.bad(callKey(fn, s), p.Rel(s.Pos()), "the ref update runs once per staged branch", "the ref update is not inside a loop")
 					continue
@@ -1132,4 +1129,214 @@ func init() {
 			return nil
 		},
 	})
+}
+
+// ---- sorter output: full blocks ----
+
+func init() {
+	register(&Rule{
+		ID: "C01-g", Template: "T4 permit-cut (block size invariant)",
+		Doc: "Every block but the last holds exactly 255 rows: in pkg/sorter a sorter.Block that is created inside the row loop of a producer is reachable, within one iteration, only through the true edge of `len(rows) == 255`. Row positions are computed as block×255+offset everywhere (table index, diff, export paging); a block closed early on any other condition shifts every later row and makes rows unreachable by position.",
+		Min: 1,
+		Run: func(p *Program, r *RuleResult) error {
+			blockT, err := p.NamedType("pkg/sorter.Block")
+			if err != nil {
+				return err
+			}
+			fns := p.FuncsInPkg("pkg/sorter")
+			r.Analysed = len(fns)
+			for _, fn := range fns {
+				// full-block tests
+				var full []ssa.Value
+				for _, b := range fn.Blocks {
+					for _, in := range b.Instrs {
+						bo, ok := in.(*ssa.BinOp)
+						if !ok || (bo.Op != token.EQL && bo.Op != token.GEQ && bo.Op != token.LEQ) {
+							continue
+						}
+						x, y := bo.X, bo.Y
+						op := bo.Op
+						if _, ok := constInt(x); ok {
+							x, y = y, x
+							if op == token.LEQ {
+								op = token.GEQ
+							} else if op == token.GEQ {
+								op = token.LEQ
+							}
+						}
+						if op == token.LEQ {
+							continue
+						}
+						if k, ok := constInt(y); !ok || k != 255 {
+							continue
+						}
+						if c, ok := stripConv(x).(*ssa.Call); ok && isBuiltin(c, "len") {
+							full = append(full, bo)
+						}
+					}
+				}
+				cutFull := boolEdges(fn, forward(full, fwdOpts{noBinOp: true}), true)
+				n := 0
+				for _, b := range fn.Blocks {
+					for _, in := range b.Instrs {
+						al, ok := in.(*ssa.Alloc)
+						if !ok {
+							continue
+						}
+						pt, ok := al.Type().(*types.Pointer)
+						if !ok || !types.Identical(pt.Elem(), blockT) {
+							continue
+						}
+						h := enclosingLoop(b)
+						if h == nil {
+							r.note("%s: Block created outside any loop at %s (the last, partial block)", funcName(fn), p.Rel(al.Pos()))
+							continue // the last, partial block after the loop
+						}
+						key := fmt.Sprintf("%s|Block-in-loop#%d", funcName(fn), n)
+						n++
+						what := "a block emitted inside the row loop is full (255 rows)"
+						cut := mkCut(cutFull)
+						for e := range loopExitEdges(h) {
+							cut[e] = true
+						}
+						if path, reach := reachAfter(fn, h.Instrs[0], al, cut, nil); reach {
+							r.bad(key, p.Rel(al.Pos()), what, fmtPath("the block is created on a path of the iteration that does not pass `len(·) == 255`", path))
+						} else {
+							r.ok(key, p.Rel(al.Pos()), what)
+						}
+					}
+				}
+			}
+			return nil
+		},
+	})
+
+	register(&Rule{
+		ID: "C16-h", Template: "T2 never-follows (no report after cancellation)",
+		Doc: "A producer that has seen its context cancelled does not report on the error channel any more: in the goroutines of pkg/sorter, pkg/ingest, pkg/diff and pkg/merge no send on an error channel is reachable from the `<-ctx.Done()` case of a select. Cancellation is how the consumer says it has gone away — it closes (or stops reading) the error channel right before it cancels, so a send there panics with 'send on closed channel' or blocks forever.",
+		Min: 2,
+		Run: func(p *Program, r *RuleResult) error {
+			fns := p.FuncsInPkg("pkg/sorter", "pkg/ingest", "pkg/diff", "pkg/merge")
+			r.Analysed = len(fns)
+			for _, fn := range fns {
+				n := 0
+				for _, b := range fn.Blocks {
+					for _, in := range b.Instrs {
+						sel, ok := in.(*ssa.Select)
+						if !ok {
+							continue
+						}
+						for si, st := range sel.States {
+							if st.Dir != types.RecvOnly || !isCtxDone(st.Chan) {
+								continue
+							}
+							key := fmt.Sprintf("%s|ctx.Done-case#%d", funcName(fn), n)
+							n++
+							what := "nothing is sent on an error channel after cancellation was observed"
+							// the block entered when case si fires
+							start := selectCaseBlock(sel, si)
+							if start == nil {
+								r.ok(key, p.Rel(sel.Pos()), what)
+								continue
+							}
+							var bad ssa.Instruction
+							seen := map[*ssa.BasicBlock]bool{}
+							stack := []*ssa.BasicBlock{start}
+							for len(stack) > 0 && bad == nil {
+								x := stack[len(stack)-1]
+								stack = stack[:len(stack)-1]
+								if seen[x] {
+									continue
+								}
+								seen[x] = true
+								for _, i2 := range x.Instrs {
+									if sd, ok := i2.(*ssa.Send); ok && isErrorChan(sd.Chan.Type()) {
+										bad = sd
+										break
+									}
+								}
+								stack = append(stack, x.Succs...)
+							}
+							if bad != nil {
+								r.bad(key, p.Rel(bad.Pos()), what, "a send on an error channel is reachable from the `<-ctx.Done()` case at "+p.Rel(sel.Pos())+": the consumer that cancelled has already closed or abandoned that channel")
+							} else {
+								r.ok(key, p.Rel(sel.Pos()), what)
+							}
+						}
+					}
+				}
+			}
+			return nil
+		},
+	})
+}
+
+func isCtxDone(v ssa.Value) bool {
+	c, ok := v.(*ssa.Call)
+	if !ok {
+		return false
+	}
+	cc := c.Common()
+	if cc.IsInvoke() && cc.Method.Name() == "Done" && cc.Method.Pkg() != nil && cc.Method.Pkg().Path() == "context" {
+		return true
+	}
+	return false
+}
+
+func isErrorChan(t types.Type) bool {
+	ch, ok := t.Underlying().(*types.Chan)
+	return ok && isErrorType(ch.Elem())
+}
+
+// selectCaseBlock: the block control reaches when state idx of sel is chosen. go/ssa
+// lowers a select into a chain of `if index == k` tests on Extract #0.
+func selectCaseBlock(sel *ssa.Select, idx int) *ssa.BasicBlock {
+	var index ssa.Value
+	for _, ref := range *sel.Referrers() {
+		if ex, ok := ref.(*ssa.Extract); ok && ex.Index == 0 {
+			index = ex
+		}
+	}
+	if index == nil {
+		return nil
+	}
+	for _, ref := range *index.Referrers() {
+		bo, ok := ref.(*ssa.BinOp)
+		if !ok || bo.Op != token.EQL {
+			continue
+		}
+		k, ok := constInt(bo.Y)
+		if !ok || int(k) != idx {
+			continue
+		}
+		for _, r2 := range *bo.Referrers() {
+			if ifi, ok := r2.(*ssa.If); ok {
+				return ifi.Block().Succs[0]
+			}
+		}
+	}
+	return nil
+}
+
+// enclosingLoop: header of the innermost natural loop whose body contains b.
+func enclosingLoop(b *ssa.BasicBlock) *ssa.BasicBlock {
+	var best *ssa.BasicBlock
+	for _, h := range b.Parent().Blocks {
+		if !h.Dominates(b) {
+			continue
+		}
+		isHeader := false
+		for _, p := range h.Preds {
+			if h.Dominates(p) {
+				isHeader = true
+			}
+		}
+		if !isHeader || !loopBody(h)[b] {
+			continue
+		}
+		if best == nil || best.Dominates(h) {
+			best = h
+		}
+	}
+	return best
 }
